@@ -95,7 +95,7 @@ theorem fam_pres (H : Pres cfg P Q) (now : Int) (c : Coll) (query proj : Val) (u
   unfold findAndModify
   split
   · split
-    · exact H.weaken _ hP
+    · exact fam_go H now c query proj _ upsert sort after hP
     · split
       · exact H.weaken _ hP
       · exact fam_go H now c query proj _ upsert sort after hP
